@@ -53,12 +53,16 @@ def main():
         rows.append((name, how, viol[0] if viol else '', wall))
         print(name, how, wall, viol[0] if viol else '', flush=True)
     sh([os.path.join(ROOT, 'bin', 'verif'), 'regen'])
-    if not args:
-        with open(os.path.join(ROOT, 'seeded', 'MATRIX.md'), 'w') as f:
-            f.write(f'# seeded changes against their property check ({tier} tier, VERIF_SEED={os.environ.get("VERIF_SEED", "1")})\n\n')
-            f.write('| change | verdict | first VIOLATION line | wall s |\n|---|---|---|---|\n')
-            for r in rows:
-                f.write(f'| {r[0]} | {r[1]} | `{r[2]}` | {r[3]} |\n')
+    allnames = sorted(n for n in os.listdir(os.path.join(ROOT, 'seeded')) if re.fullmatch(r'C\d\d-\d', n))
+    with open(os.path.join(ROOT, 'seeded', 'MATRIX.md'), 'w') as f:
+        f.write('# seeded changes against the check of the property they break (from seeded/<name>/detect.json)\n\n')
+        f.write('| change | tier | verdict | first VIOLATION line | wall s |\n|---|---|---|---|---|\n')
+        for n in allnames:
+            p = os.path.join(ROOT, 'seeded', n, 'detect.json')
+            if os.path.exists(p):
+                d = json.load(open(p))
+                v = d['violation_lines'][0] if d['violation_lines'] else ''
+                f.write(f"| {n} | {d['tier']} | {d['verdict']} | `{v}` | {d['wall_s']} |\n")
     missed = [r[0] for r in rows if r[1] in ('MISSED', 'APPLY-FAILED')]
     print('missed:', missed)
     return 1 if missed else 0
